@@ -101,6 +101,8 @@ fn price_strategy() -> BoxedStrategy<PriceCase> {
             let p = sqrt_price_from_tick_index(t) as i128 + d as i128;
             (p.max(MIN_SQRT_PRICE as i128) as u128).min(MAX_SQRT_PRICE)
         }),
+        // bit-structured values (the inverse normalises to 64 significant bits and iterates on them)
+        crate::gen::structured_u128(96).prop_map(|v| v.clamp(MIN_SQRT_PRICE, MAX_SQRT_PRICE)),
     ]
     .prop_map(|sqrt_price| PriceCase { sqrt_price })
     .boxed()
@@ -111,7 +113,7 @@ pub fn def() -> CheckDef {
         id: "C09",
         rule: "forward domain: every tick in [-443636, 443636] enumerated (monotone, endpoints, exact-integer 2^-32 step-ratio \
                inequality, inverse at p(t) and p(t)±1); every tick is a distinct non-trivial case.  inverse domain: random sqrt-prices \
-               (uniform, log-uniform, near boundaries) checked for p(t) <= x < p(t+1); distinct = distinct price.",
+               (uniform, log-uniform, near boundaries, bit-structured: 2^n±d, runs of ones, all-ones prefixes) checked for p(t) <= x < p(t+1); distinct = distinct price.",
         assumptions: vec!["x86-64 and SBF code generation agree on safe integer code"],
         subs: vec![
             Sub {
@@ -130,7 +132,7 @@ pub fn def() -> CheckDef {
                     check_tick(t)
                 }),
             },
-            sub("inverse_random", 2_000_000, 200_000_000, price_strategy, |c: &PriceCase, l: &mut Local| check_price(c, l)),
+            sub("inverse_random", 16_000_000, 1_000_000_000, price_strategy, |c: &PriceCase, l: &mut Local| check_price(c, l)),
         ],
     }
 }
